@@ -29,6 +29,7 @@ type Op struct {
 	Fault    string `json:"fault,omitempty"` // "" | fail | stall
 	FailFrom int64  `json:"fail_from,omitempty"`
 	Intf     bool   `json:"intf,omitempty"`
+	Bad      bool   `json:"bad,omitempty"` // check: a mountpoint nobody mounted
 	Buf      int    `json:"buf,omitempty"`
 }
 
@@ -49,6 +50,11 @@ type Case struct {
 	LRU          int        `json:"lru"`
 	SyncAdd      bool       `json:"sync_add"`
 	SkipVerify   bool       `json:"skip_verify"`
+	FS           bool       `json:"fs,omitempty"`           // filesystem level: fs.NewFilesystem, Mount (no FUSE), Check
+	NoPrefetch   bool       `json:"noprefetch,omitempty"`   // fs config
+	NoBG         bool       `json:"no_bg,omitempty"`        // fs config no_background_fetch
+	CheckAlways  bool       `json:"check_always,omitempty"` // blob config
+	LabelSize    bool       `json:"label_size,omitempty"`   // the prefetch size comes from the snapshot label, the config has another one
 	Ops          []Op       `json:"ops"`
 }
 
@@ -69,6 +75,8 @@ type OpOut struct {
 	Keys    [][3]int64 `json:"keys,omitempty"`
 	HasKeys bool       `json:"has_keys,omitempty"`
 	Errs    int        `json:"errs,omitempty"`
+	Waited  bool       `json:"waited,omitempty"` // check: it took at least the prefetch timeout
+	Full    bool       `json:"full,omitempty"`   // check: the blob was fetched completely before the call
 	Grew    bool       `json:"grew,omitempty"`
 }
 
@@ -214,7 +222,9 @@ func gen(r *hx.Rng, stores []string) Case {
 	c.SyncAdd = r.Chance(1, 3)
 	c.SkipVerify = r.Chance(1, 5)
 	c.Ops = genOps(r, &c)
-	if c.LM == "prefetch" && r.Chance(1, 10) {
+	if r.Chance(1, 3) {
+		genFS(r, &c)
+	} else if c.LM == "prefetch" && r.Chance(1, 10) {
 		// landmark offset <= async threshold < configured size: the threshold must be compared with the range that is
 		// really prefetched (the landmark's), so a wait during the parked download is NOT released early
 		c.AsyncSize = int64(r.Range(350000, 450000))
@@ -222,6 +232,76 @@ func gen(r *hx.Rng, stores []string) Case {
 		c.Ops = []Op{{Op: "pf", N: r.Range(1, 2), Fault: "stall"}, {Op: "wait", N: r.Range(1, 3)}, {Op: "rel"}, {Op: "wait"}, {Op: "readprio"}}
 	}
 	return c
+}
+
+// genFS turns the case into a filesystem-level one: the real fs.Mount (without the FUSE server) and fs.Check.
+func genFS(r *hx.Rng, c *Case) {
+	c.FS = true
+	c.NoPrefetch = r.Chance(1, 6)
+	c.NoBG = r.Chance(3, 5)
+	c.CheckAlways = r.Chance(1, 2)
+	c.LabelSize = r.Chance(1, 3)
+	many := func() int {
+		if r.Chance(1, 4) {
+			return r.Range(2, 3)
+		}
+		return 1
+	}
+	var ops []Op
+	if r.Chance(1, 5) {
+		ops = append(ops, Op{Op: "check"}) // nothing mounted yet
+	}
+	m := Op{Op: "mount"}
+	if c.NoBG && !c.NoPrefetch {
+		switch r.Pick(4, 1, 4) {
+		case 1:
+			m.Fault = "fail"
+			m.FailFrom = []int64{0, c.BlobCS, int64(r.Range(0, 40000))}[r.Intn(3)]
+		case 2:
+			m.Fault = "stall"
+		}
+	}
+	ops = append(ops, m)
+	if r.Chance(1, 6) {
+		ops = append(ops, Op{Op: "check", Bad: true})
+	}
+	if m.Fault == "stall" {
+		// the user-visible waiting: the first Check waits for the parked prefetch (bounded by the timeout) unless the
+		// async threshold released it; later checks and waits return at once
+		switch r.Pick(3, 1, 1) {
+		case 0:
+			ops = append(ops, Op{Op: "check"})
+		case 1:
+			ops = append(ops, Op{Op: "wait", N: many()}, Op{Op: "check"})
+		case 2:
+			ops = append(ops, Op{Op: "off"}, Op{Op: "check"}, Op{Op: "on"})
+		}
+		if r.Chance(1, 2) {
+			ops = append(ops, Op{Op: "check"})
+		}
+		ops = append(ops, Op{Op: "rel"})
+	}
+	ops = append(ops, Op{Op: "check"})
+	if r.Chance(1, 3) {
+		ops = append(ops, Op{Op: "off"}, Op{Op: "check"})
+		if r.Chance(1, 2) {
+			ops = append(ops, Op{Op: "on"}, Op{Op: "check"})
+		} else {
+			ops = append(ops, Op{Op: "readprio"}, Op{Op: "on"})
+		}
+	}
+	if r.Chance(2, 3) {
+		ops = append(ops, Op{Op: "readprio", Buf: []int{0, 777, 4096}[r.Intn(3)]})
+	}
+	if r.Chance(1, 4) {
+		ops = append(ops, Op{Op: "pf", N: many()}, Op{Op: "wait"})
+	}
+	if c.NoBG && r.Chance(1, 2) {
+		ops = append(ops, Op{Op: "bg", N: many()}, Op{Op: "off"}, Op{Op: "readall"}, Op{Op: "check"})
+	} else if r.Chance(1, 2) {
+		ops = append(ops, Op{Op: "off"}, Op{Op: "readall"})
+	}
+	c.Ops = ops
 }
 
 func genOps(r *hx.Rng, c *Case) []Op {
@@ -401,8 +481,17 @@ func coqCase(c *Case, obs *Obs) string {
 			hx.CoqBool(f.Prio), hx.CoqBool(f.Landmark))
 	}
 	ops := make([]string, len(c.Ops))
+	mounted := false
 	for i, o := range c.Ops {
 		switch o.Op {
+		case "mount":
+			ops[i] = fmt.Sprintf("SMount %s %s %s", coqFault(o), hx.CoqBool(c.NoPrefetch), hx.CoqBool(c.NoBG))
+			if i < len(obs.Outs) && (obs.Outs[i].Res == "ok" || obs.Outs[i].Res == "stalled") {
+				mounted = true
+			}
+		case "check":
+			full := i < len(obs.Outs) && obs.Outs[i].Full
+			ops[i] = fmt.Sprintf("SCheck %s %s %s %s", hx.CoqBool(mounted && !o.Bad), hx.CoqBool(c.CheckAlways), hx.CoqBool(c.NoPrefetch), hx.CoqBool(full))
 		case "hold":
 			ops[i] = "SHold"
 		case "settle":
@@ -435,7 +524,7 @@ func coqCase(c *Case, obs *Obs) string {
 		if o.HasKeys {
 			keys = "(Some " + coqKeys(o.Keys) + ")"
 		}
-		outs[i] = fmt.Sprintf("(mkOut %s %s %s %s %s %s)", coqRes(o.Res), coqPairs(o.Reqs), hx.CoqZ(o.PfSize), keys, hx.CoqZ(int64(o.Errs)), hx.CoqBool(o.Grew))
+		outs[i] = fmt.Sprintf("(mkOut %s %s %s %s %s %s %s)", coqRes(o.Res), coqPairs(o.Reqs), hx.CoqZ(o.PfSize), keys, hx.CoqZ(int64(o.Errs)), hx.CoqBool(o.Grew), hx.CoqBool(o.Waited))
 	}
 	pre := make([]string, len(obs.Pre))
 	for i, p := range obs.Pre {
@@ -493,6 +582,11 @@ func Main(stores []string, factories map[string]StoreFactory) {
 			obs.Outs = append(obs.Outs, OpOut{Res: "none"})
 		}
 		ctx.Count("lm." + c.LM)
+		if c.FS {
+			ctx.Count("level.fs")
+		} else {
+			ctx.Count("level.layer")
+		}
 		ctx.Count("store." + c.Store)
 		ctx.Count("cache.http." + c.HTTPCache)
 		ctx.Count("cache.fs." + c.FSCache)
@@ -534,6 +628,9 @@ func Main(stores []string, factories map[string]StoreFactory) {
 			}
 			if o.Op == "pf" && len(out.Keys) > 0 {
 				ctx.Count("result.pf.keys")
+			}
+			if o.Op == "check" && out.Waited {
+				ctx.Count("result.check.waited")
 			}
 			if (o.Op == "readprio" || o.Op == "readall") && out.Grew {
 				ctx.Count("result." + o.Op + ".grew")
@@ -632,6 +729,26 @@ func corpus() []Case {
 	c = base()
 	c.ChunkSize, c.FSCache, c.LRU, c.SyncAdd = 4096, "dir", 2, true
 	c.Ops = []Op{{Op: "readpart"}, {Op: "pf"}, {Op: "off"}, {Op: "readprio"}, {Op: "on"}, {Op: "bg", N: 2}, {Op: "off"}, {Op: "readall", Buf: 777}}
+	out = append(out, c)
+	// filesystem level: Mount spawns prefetch and background fetch; the first Check finds the prefetch over
+	c = base()
+	c.FS = true
+	c.Ops = []Op{{Op: "check"}, {Op: "mount"}, {Op: "check"}, {Op: "check", Bad: true}, {Op: "off"}, {Op: "readall"}, {Op: "check"}}
+	out = append(out, c)
+	// the prefetch spawned by Mount is parked: the first Check waits (bounded by the timeout), the second does not
+	c = base()
+	c.FS, c.NoBG, c.LabelSize = true, true, true
+	c.Ops = []Op{{Op: "mount", Fault: "stall"}, {Op: "check"}, {Op: "check"}, {Op: "rel"}, {Op: "check"}, {Op: "readprio"}}
+	out = append(out, c)
+	// ... unless the async threshold released the waiter; connectivity lost with check_always: Check reports it at once
+	c = base()
+	c.FS, c.NoBG, c.AsyncSize, c.CheckAlways = true, true, 1000, true
+	c.Ops = []Op{{Op: "mount", Fault: "stall"}, {Op: "check"}, {Op: "off"}, {Op: "check"}, {Op: "on"}, {Op: "rel"}, {Op: "check"}}
+	out = append(out, c)
+	// prefetch disabled in the filesystem: nothing is fetched, Check never waits
+	c = base()
+	c.FS, c.NoBG, c.NoPrefetch = true, true, true
+	c.Ops = []Op{{Op: "mount"}, {Op: "check"}, {Op: "readprio"}, {Op: "bg"}, {Op: "off"}, {Op: "readall"}}
 	out = append(out, c)
 	// registry failure during prefetch: waiting returns, later calls do not run the body again
 	c = base()
